@@ -629,11 +629,11 @@ func p0keys(m *model) []string {
 var Engine = &core.Engine{
 	ID:    "C10",
 	Level: "exploration",
-	Rule: "per case one model type built with reflect.StructOf (key int64 / uint / string / composite (int64,string); 3..7 fields of 20 Go kinds incl. pointers and sql.Null*, custom column names, one random permission tag each out of <-:create, <-:update, <-:false, <-, ->, ->;<-:create, ->;<-:update, ->:false;<-:create, ->:false;<-, ->:false, -, -:migration, -:all; about 3 data fields in 10 also carry a default value in either tag order - default:(SQL expression) or default:null, which only the database evaluates (schema.FieldsWithDefaultDBValue), or a literal default:N / default:text gorm writes itself for a zero value - with the same DEFAULT in the table's DDL; 0..3 tracked time fields: UpdatedAt/CreatedAt by name, autoUpdateTime (time, seconds, milli, nano), autoCreateTime); in half of the models the non-key fields are spread over the top level and 1..2 EMBEDDED STRUCTS (embedded by tag or anonymously, by value or by pointer, with or without embeddedPrefix, one level of nesting) and 0..2 columns get a DUPLICATE field of the same Go name on a path of another length: " +
+	Rule: "per case one model type built with reflect.StructOf (key int64 / uint / string / composite (int64,string); 3..7 fields of 20 Go types incl. pointers, sql.Null* and four kinds whose Go kind is Slice or Map (5 picks in 24): []byte, []string and map[string]int64 under serializer:json, and a named slice type that is its own driver.Valuer / sql.Scanner (type:text); custom column names, one random permission tag each out of <-:create, <-:update, <-:false, <-, ->, ->;<-:create, ->;<-:update, ->:false;<-:create, ->:false;<-, ->:false, -, -:migration, -:all; about 3 data fields in 10 also carry a default value in either tag order - default:(SQL expression) or default:null, which only the database evaluates (schema.FieldsWithDefaultDBValue), or a literal default:N / default:text gorm writes itself for a zero value - with the same DEFAULT in the table's DDL; 0..3 tracked time fields: UpdatedAt/CreatedAt by name, autoUpdateTime (time, seconds, milli, nano), autoCreateTime); in half of the models the non-key fields are spread over the top level and 1..2 EMBEDDED STRUCTS (embedded by tag or anonymously, by value or by pointer, with or without embeddedPrefix, one level of nesting) and 0..2 columns get a DUPLICATE field of the same Go name on a path of another length: " +
 		"a field without any permission (<-:false;->:false in either tag order) on the shorter path (top level) declared after - 1 in 3: before - the embedded struct whose writable field keeps serving the column, a field without any permission on the longer path, or a promoted field with a random permission tag shadowed by the outer field that owns the column (left zero); duplicates without permission carry non-zero values 3 times in 4, which must never reach the column; " +
 		"the table is created with raw SQL and holds 3..6 rows of unique sentinels; half of the composite-key models seed keys whose parts may be zero ((0,'a'), (1,'')); 12 writes per case, each on a re-seeded table: " +
-		"Create(struct | slice | []*T | map | []map), CreateInBatches, upsert (DoUpdates AssignmentColumns / Assignments, UpdateAll, DoNothing; conflicting and new keys mixed), Save (existing key, new key, zero key, slice, under a Where), Updates(struct by value/pointer, value = model), Updates(map), Update, UpdateColumn, UpdateColumns(struct | map) x Select/Omit (none, names, '*', '*'+Omit, names+Omit, Omit('*'); each name spelled as field name, column name or - 1 column spelling in 6 - column name qualified with the written table 'tbl.col'; the list of names handed over as Select(a, b, c), Select([]string{..}), Select(a, []string{..}), Select([]string{..}, c), Select([]string{a}, []string{..}), Omit(a, b, c) or - 2 in 5 lists of two or more names - ONE comma-joined string Omit(\"a,b\" | \"a, b\" | \"a , b\") with every mix of spellings at every position) x values zero / non-zero / pointer-to-zero / nil / gorm.Expr x targets Model(key), Where (8 forms, 1..2), Model(key)+Where, Model(slice | array, of T | *T, of keys)[+Where] whose elements may have a zero key PART (composite keys), repeat a key (1 in 6) or carry no key at all (1 in 5; one time in three as the last element), missing key, value = model [+Where]; creates whose records carry integer keys while the key column is omitted / left unselected (1 in 5: the database must assign the key); one operation in three runs its chain calls (Model, Where, Select, Omit, Clauses) in a random order; a column an INSERT may not write must hold the column's DDL default (else NULL); " +
-		"distinct = (finisher, target form, Select/Omit mode and spelling, permission tags denied, value forms, which check classes occurred, key kind, kinds of default whose given value had to be kept out of an INSERT, key carried but omitted, chain calls reordered, call form of the Select list and of the Omit list incl. the separator of a comma-joined one, cells written through an embedded struct, embedding forms of the model, roles of the duplicate fields next to a checked cell, container and element forms of a Model(slice)); non-trivial = at least one cell had to be written or refreshed, or a given value had to be kept out by a permission tag / Select / Omit",
+		"Create(struct | slice | []*T | map | []map), CreateInBatches, upsert (DoUpdates AssignmentColumns / Assignments, UpdateAll, DoNothing; conflicting and new keys mixed), Save (existing key, new key, zero key, slice, under a Where), Updates(struct by value/pointer, value = model), Updates(map), Update, UpdateColumn, UpdateColumns(struct | map) x Select/Omit (none, names, '*', '*'+Omit, names+Omit, Omit('*'); each name spelled as field name, column name or - 1 column spelling in 6 - column name qualified with the written table 'tbl.col'; the list of names handed over as Select(a, b, c), Select([]string{..}), Select(a, []string{..}), Select([]string{..}, c), Select([]string{a}, []string{..}), Omit(a, b, c) or - 2 in 5 lists of two or more names - ONE comma-joined string Omit(\"a,b\" | \"a, b\" | \"a , b\") with every mix of spellings at every position) x values zero / non-zero / pointer-to-zero / nil / gorm.Expr / for the slice and map kinds an EMPTY BUT NON-NIL value ([]byte{}, []string{}, map[string]int64{}, StrList{}: not the zero value of its type, so Updates(struct), UpdateColumns(struct), Save and every insert must write it - an empty blob, \"[]\", \"{}\" - while nil is the zero value; 1 non-zero collection value in 3 in structs, the \"zero\" slot of map values and DoUpdates assignments) x targets Model(key), Where (8 forms, 1..2), Model(key)+Where, Model(slice | array, of T | *T, of keys)[+Where] whose elements may have a zero key PART (composite keys), repeat a key (1 in 6) or carry no key at all (1 in 5; one time in three as the last element), missing key, value = model [+Where]; creates whose records carry integer keys while the key column is omitted / left unselected (1 in 5: the database must assign the key); one operation in three runs its chain calls (Model, Where, Select, Omit, Clauses) in a random order; one update in three carries Clauses(clause.Returning{}) or a Returning naming 1..3 columns (UPDATE ... RETURNING scanned back into the model value), one struct create / upsert / Save in five does; REUSED HANDLE: after one update in three (no new Session) a SECOND update finisher - any of Updates(struct | map), Update, UpdateColumn, UpdateColumns(struct | map) with its own values - is called on the same *gorm.DB handle, either on the variable holding the chain (tx := db.Table(..).Model(..).Where(..).Select(..).Clauses(..); tx.Update(..); tx.Updates(..)) or on the handle the first finisher returned (the chained spelling ....Updates(a).UpdateColumns(b)), and after one Create / Create(slice) / CreateInBatches in four a second one with fresh records; the table is re-seeded with raw SQL between the two, so each finisher is checked on its own against the same prediction rules: it must write exactly ITS keys / non-zero fields to the rows the shared chain addresses; a column an INSERT may not write must hold the column's DDL default (else NULL); " +
+		"distinct = (finisher, target form, Select/Omit mode and spelling, permission tags denied, value forms, which check classes occurred, key kind, kinds of default whose given value had to be kept out of an INSERT, key carried but omitted, chain calls reordered, call form of the Select list and of the Omit list incl. the separator of a comma-joined one, cells written through an embedded struct, embedding forms of the model, roles of the duplicate fields next to a checked cell, container and element forms of a Model(slice), an empty non-nil collection value had to be written, form of the RETURNING clause, first or second finisher on the handle); non-trivial = at least one cell had to be written or refreshed, or a given value had to be kept out by a permission tag / Select / Omit",
 	Assumptions: []string{
 		"the table is created with raw SQL (the migrator is not under test) and every chain starts with db.Table(name) (reflect.StructOf types have no name); ignored fields (`-`, `-:all`) get a ghost column so that a write to them is visible",
 		"`->:false` without a `<-` tag: the statement does not fix its write permission, the column is not checked in addressed rows (rows outside the target are)",
@@ -647,7 +647,7 @@ var Engine = &core.Engine{
 		"batches carry either only zero keys or only explicit keys; the new keys are then max+1.. (SQLite rowid) resp. the given ones; composite keys of records (creates, upserts, Save) and of STRUCT model values are always given completely (both parts non-zero): a struct value with a partly zero key is addressed by its non-zero parts only, which the statement does not fix; rows with a partly zero key are addressed by conditions and by the elements of a Model(slice), whose keys are taken literally, zero parts included",
 		"conditions are evaluated by SQLite itself (raw SELECT) to get the target set; their rendering is C02's subject",
 		"default values: a zero struct value of a field with a default must end up as the default OR as the zero value (the statement does not say which); in an upsert conflict row the new value of such a field is not checked when it is zero or when the default is database-evaluated (UpdateAll leaves those columns out), while denied / omitted / unlisted columns must still stay; in a batch of maps a key only other maps carry is not checked on a default column (NULL versus default)",
-		"within one batch of structs a database-evaluated default field is zero in every record or non-zero in every record (for a mixed batch gorm renders the DEFAULT keyword, which SQLite does not parse); time and []byte fields only get default:null; key, tracked-time and ignored fields get no default",
+		"within one batch of structs a database-evaluated default field is zero in every record or non-zero in every record (for a mixed batch gorm renders the DEFAULT keyword, which SQLite does not parse); time, slice and map fields only get default:null; key, tracked-time and ignored fields get no default",
 		"a field tagged ->:false (not readable) gets no default: gorm adds RETURNING <col> for database-default fields and fails to scan it back into an unreadable field (Scan error / nil field dereference in gorm.Scan, later rows of the batch not inserted): a read-back matter outside this statement, see the report of the strengthening round",
 		"the key column is omitted / left unselected on creates only for single integer keys (the database can assign one); string and composite keys are always written",
 		"the chain calls commute: Table() always comes first, the finisher last, map conditions use column names (no model is needed to resolve them)",
@@ -657,6 +657,9 @@ var Engine = &core.Engine{
 		"Model(slice): an element without key (all key parts zero) addresses no row, the other elements still restrict the update; at least one element has a key; a slice whose LAST element has no key is reported under its own signature model-slice-last-element-without-key/<class>",
 		"embedded structs: keys stay at the top level; Go field names are unique over the whole model except for the duplicate pairs, so the field-name spelling of Select/Omit/map keys is unambiguous; embedded pointers are non-nil whenever a field below them is set",
 		"duplicate columns: exactly two fields share a column, they have the same Go name and sit on paths of DIFFERENT length (two fields on paths of equal length sharing a column, duplicates with another Go name via column:, and three or more fields per column are not generated: which field owns the column is not fixed by the statement); one of the two has either no permission at all (then the other one's rules apply unchanged: it is written where the statement says so, and the permission-less field's value never is) or is the deeper, promoted field shadowed by an outer field with some permission (Go's shadowing: the outer field owns the column, the inner one is always left zero); names and map keys address the owning field; duplicates carry no default and are never key, tracked-time or ignored fields",
+		"slice and map kinds: a value handed over in a MAP (Updates(map), Update, UpdateColumn(s)(map), clause.Assignments) does not pass through the field's serializer, so map values of serializer:json fields are given in their stored form (the JSON text), nil or gorm.Expr; []byte and the Valuer type are given as Go values; conditions never compare such a column; the JSON texts contain no characters json.Marshal escapes",
+		"RETURNING: named columns never include an unreadable (->:false) column - gorm fails to scan it back ('unsupported Scan, storing driver.Value type ... into type *struct') and the default transaction rolls the write back: the same read-back matter as the RETURNING of database-default fields above, outside this statement - and name all key columns or none (a part of a composite key scanned by position into the elements of a Model(slice) mixes the keys of different rows); map creates carry no Returning; CreateInBatches is not combined with Clauses(clause.Returning{}) (all columns): gorm.Scan panics 'reflect.Value.SetLen using unaddressable value' on the non-addressable sub-slice CreateInBatches hands to the create callback, before anything is committed (const genBatchReturningAll; witness in the report of the strengthening round) - a read-back matter as well",
+		"second finisher on a handle: only where what the handle addresses after the first finisher is fixed - not when the value is the model itself (assigned / loaded by the first finisher), not under RETURNING with a key-less Model(&T{}) (RETURNING loads the first returned row's key into it), not under RETURNING * with a Model(array of *T) (unfilled elements are left nil and the next finisher dereferences them), and not under RETURNING with a Model(slice) when the first finisher addressed no row (the slice is emptied); a column-update finisher leaves the handle in skip-hooks mode, so only column-update finishers follow one (whether a later Updates on that handle is hook-running is not fixed by the statement); Select('*') lets a second struct value follow only where it can carry the key of the single addressed row; a second create follows only plain Create / CreateInBatches of structs; violations of the second finisher have the signature second-finisher-on-handle/<family>/<class>",
 		"a permission-less duplicate on the shorter path is always declared AFTER the embedded struct that holds the writable field; declared before it, it is the first to claim the column and gorm keeps it (the writable field is ignored on every write path): which of two fields owns a column is not fixed by the statement, so that order is not generated",
 	},
 	Cases: func(tier string) int {
